@@ -47,6 +47,10 @@ func VerifyAttestationSignatures(
 	publicKeys []types.Attester,
 	signatureThreshold uint32,
 ) error {
+	if uint64(len(attestation)) != uint64(types.SignatureLength)*uint64(signatureThreshold) {
+		return sdkerrors.Wrap(types.ErrSignatureVerification, "invalid attestation length")
+	}
+
 	if uint32(len(attestation)) != types.SignatureLength*signatureThreshold {
 		return sdkerrors.Wrap(types.ErrSignatureVerification, "invalid attestation length")
 	}
